@@ -14,8 +14,10 @@
 #define BIG ((@R@)(1. / @sfmin@))
 #if PREC_IS_d
 #define FMAX 1.7976931348623157e308
+#define ABSV(x) __CPROVER_fabs(x)
 #else
 #define FMAX 3.40282346638528859812e38f
+#define ABSV(x) __CPROVER_fabsf(x)
 #endif
 #define FINITE(x) (ABSV(x) <= FMAX)
 #define ARGS_OK (NR >= 0 && NC >= 0 && in_A.Stype == SLU_NC && in_A.Dtype == SLU_@P@ && in_A.Mtype == SLU_GE)
@@ -25,4 +27,4 @@
 #define ZCOL(j,q) FA(q, NZ, INCOL(q,j) ==> AV(q) == 0)
 #define IN_SCALE(x) (SML <= (x) && (x) <= BIG)
 /* the largest stored magnitude, named through the ghost argmax g_m (0 when nothing is stored) */
-#define AMAXV (CP(0) < CP(NC) ? ABSA(g_m) : 0)
+#define AMAXV g_amax
